@@ -44,6 +44,8 @@ OPS, GMP, GU = E.OPS, E.GMP, E.GMPUTILS
 CTX = 'fpy2/number/context/'
 
 MUTANTS = [
+    Mutant('power-of-two-format-reports-zero-digits', 'fpy2/number/context/exponential.py', "    def round_params(self) -> tuple[int | None, int | None]:\n        return 1, None", "    def round_params(self) -> tuple[int | None, int | None]:\n        return 0, None", 'C03.F3',
+           'seeded change C03e: exp2(0.1) under ExpContext / RNE is 2.0'),
     Mutant('operands-built-under-the-ambient-context', GU, "    with gmp.context(\n        emin=MPFR_EMIN,\n        emax=MPFR_EMAX,\n        trap_underflow=False,\n        trap_overflow=False,\n        trap_inexact=False,\n        trap_divzero=False,\n    ):\n        r = gmp.mpfr(fmt, precision=x.p, base=16)",
            "    if True:\n        r = gmp.mpfr(fmt, precision=x.p, base=16)", 'C03.F4', 'finding F57 before its repair'),
     Mutant('operand-range-left-to-the-caller', GU, "    with gmp.context(\n        emin=MPFR_EMIN,\n        emax=MPFR_EMAX,\n        trap_underflow=False,\n        trap_overflow=False,\n        trap_inexact=False,\n        trap_divzero=False,\n    ):\n        r = gmp.mpfr(fmt",
